@@ -200,6 +200,30 @@ def multi_paths(n, nslots):
     return paths
 
 
+def cfg_cover(maxuser):
+    """every legal configuration with at most `maxuser` user features in every combination of their modes, per shape class,
+    with the outcome the resolution model predicts (spec/CfgCover.tla)"""
+    d = stim_dir()
+    cache = os.path.join(d, f"cfgcover_{maxuser}.json")
+    if os.path.exists(cache):
+        return json.load(open(cache))
+    rundir = os.path.join(d, f"run_cfgcover_{maxuser}")
+    os.makedirs(rundir, exist_ok=True)
+    cfg = f"CfgCover_{maxuser}.cfg"
+    open(os.path.join(rundir, cfg), "w").write(
+        f"SPECIFICATION CSpec\nCONSTANTS ModeSlice = \"all\"\n MaxUser = {maxuser}\nINVARIANTS Emit Sane\nCHECK_DEADLOCK FALSE\n")
+    out, st = run_tlc(rundir, "CfgCover.tla", cfg, workers=1)
+    if not tlc_ok(out):
+        raise ToolError(f"TLC failed on CfgCover MaxUser={maxuser}:\n{out[-3000:]}")
+    cases = printed(out, "CFG")
+    if not cases:
+        raise ToolError("CfgCover: no configuration emitted")
+    res = {"maxuser": maxuser, "cases": cases, "stats": st,
+           "outcomes": len({(tuple(sorted(c["en"])), c["ram"], c["rfm"], c["rtm"], c["rim"], c["off"], c["gapless"]) for c in cases})}
+    atomic_dump(res, cache)
+    return res
+
+
 def first_ops(n, start):
     """all single operations from a start window (for range(a,b) constructors)"""
     g = iter_graph(n)
